@@ -74,21 +74,37 @@ class Scenario:
     pass
 
 
-def build(cx, stations, rows, sessions, algo_factory, t_now=2, limit_hi=100.0, unplugged=(), sym_battery=True, finite_prev=None, warmup=False):
+def build(cx, stations, rows, sessions, algo_factory, t_now=2, limit_hi=100.0, unplugged=(), sym_battery=True, finite_prev=None, warmup=False, foreign=False):
     """stations: [(kind, voltage, phase)], rows: constraint coefficient lists, sessions: [(station index, arrival, departure, estimated departure)]"""
     import numpy as np
 
     A = acn()
     sc = Scenario()
-    net = A.ChargingNetwork()
     ids = ["ST-%d" % (len(stations) - j) for j in range(len(stations))]  # registration order is not the sorted order
+    if foreign:
+        # an earlier, unrelated simulation in the same process: same station ids and the same coefficient rows, but other phase
+        # angles, voltages and (loose, concrete) limits, scheduled by another algorithm object of the same kind.  Nothing of it
+        # may leak into the scenario that is judged.
+        net0 = A.ChargingNetwork()
+        for j, (kind, V, ph) in enumerate(stations):
+            net0.register_evse(make_evse(ids[j], kind), 277, (ph + 120 * (j + 1)) % 360 - 180)
+        for i, row in enumerate(rows):
+            net0.add_constraint(A.Current({ids[j]: c for j, c in enumerate(row) if c != 0}), 1000.0 + i, name="con%d" % i)
+        algo0 = algo_factory()
+        sim0 = A.Simulator(net0, algo0, A.EventQueue(), START, period=PERIOD, verbose=False)
+        for j in range(len(stations)):
+            net0.plugin(A.EV(0, 7, 5.0, ids[j], "foreign-%d" % j, A.Battery(1000, 0, 1000)))
+        sim0._iteration = 1
+        sc.foreign_schedule = algo0.run()
+    net = A.ChargingNetwork()
     for j, (kind, V, ph) in enumerate(stations):
         net.register_evse(make_evse(ids[j], kind), V, ph)
     limits = []
     for i, row in enumerate(rows):
         L = cx.real("limit%d" % i, lo=0, hi=limit_hi)
         limits.append(L)
-        net.add_constraint(A.Current({ids[j]: c for j, c in enumerate(row) if c != 0}), L, name="con%d" % i)
+        # with a warm-up call the constraints start with a loose limit and get their real one through update_constraint afterwards
+        net.add_constraint(A.Current({ids[j]: c for j, c in enumerate(row) if c != 0}), (1000.0 + i) if warmup else L, name="con%d" % i)
     algo = algo_factory()
     sim = A.Simulator(net, algo, A.EventQueue(), START, period=PERIOD, verbose=False)
     evs, req, ppil, maxp = [], [], [], []
@@ -106,6 +122,10 @@ def build(cx, stations, rows, sessions, algo_factory, t_now=2, limit_hi=100.0, u
         for w in warm:
             net.unplug(w.station_id, w.session_id)
         sim._iteration = 0
+        # the network is modified between the two calls (each constraint is updated in turn, which re-appends it: the order of the
+        # rows is the original one again at the end); the same algorithm object must see the new limits
+        for i, row in enumerate(rows):
+            net.update_constraint("con%d" % i, A.Current({ids[j]: c for j, c in enumerate(row) if c != 0}), limits[i])
     P = np.empty((n, t_now + 1), dtype=object if cx.mode == "sym" else float)
     P.fill(0)
     for k, (j, a, d, ed) in enumerate(sessions):
